@@ -41,6 +41,12 @@ SCRIPTS = {
 }
 
 
+def start_race_kinds(info, alt):
+    """Deviations of the start-race family: at the point right after a Thread.start() (any other
+    thread may run first) and early wake-ups of sleeping pollers (the runnable thread is descheduled)."""
+    return info[0][2] == "thread.started" or info[alt][1] == "early"
+
+
 def mon_history_local(scn, s, ctx, why):
     """mon_history for the one real side of a raw-peer scenario."""
     a = ctx["res"].get("assoc")
@@ -99,6 +105,25 @@ def slow_scenarios(quick):
 def run(ctx: core.Ctx) -> core.Result:
     scns = [lifecycle.Lifecycle(rq, ac, monitors=MONS) for rq in lifecycle.REQ_SCRIPTS for ac in lifecycle.ACC_SCRIPTS]
     res = lifecycle.run_family(ctx, scns, D=ctx.pick(1, 2))
+    # (3) start races: the same monitor on five life cycles with one more scheduling point - directly
+    #     after every Thread.start(), so that a freshly started thread can run before its starter's next
+    #     statement - under every schedule with <= 1 deviation
+    racers = []
+    for rq, ac in (("release", "none"), ("abort", "none")):
+        # adversarial time: a thread that sleeps in its polling loop may be run early (time passes)
+        # although another thread is runnable, i.e. the runnable one is descheduled for that long
+        r_ = lifecycle.Lifecycle(rq, ac, adversarial=True, monitors=MONS)
+        r_.point_after_spawn = True
+        r_.name = r_.name + "+start-race"
+        racers.append(r_)
+    rres = lifecycle.run_family(ctx, racers if not ctx.quick else racers[:1], D=2, kinds=start_race_kinds)
+    seen0 = {v.key for v in res.violations}
+    for v in rres.violations:
+        if v.key not in seen0:
+            res.violations.append(v)
+    res.coverage["start_race_scenarios"] = len(racers)
+    res.coverage["start_race_executions"] = rres.coverage["executions"]
+    res.coverage["traces_validated_against_impl"] += rres.coverage["executions"]
     slow = slow_scenarios(ctx.quick)
     sres = explore.explore_family(slow, D=0, seed=ctx.seed)
     seen = {v.key for v in res.violations}
